@@ -996,10 +996,6 @@ func (vfs *MemFS) rename(oldpath, newpath string) (again bool, err error) {
 		defer second.mu.Unlock()
 	}
 
-	if !oParent.checkPermission(avfs.OpenWrite, vfs.User()) || !nParent.checkPermission(avfs.OpenWrite, vfs.User()) {
-		return false, &os.LinkError{Op: op, Old: oldpath, New: newpath, Err: vfs.err.PermDenied}
-	}
-
 	// Check that nothing has changed between the search and the locks.
 	oPart, nPart := oPI.Part(), nPI.Part()
 	if oParent.children[oPart] != oChild || (nChild != nil && nParent.children[nPart] != nChild) ||
@@ -1007,20 +1003,44 @@ func (vfs *MemFS) rename(oldpath, newpath string) (again bool, err error) {
 		return true, nil
 	}
 
+	linkErr := func(err error) (bool, error) {
+		return false, &os.LinkError{Op: op, Old: oldpath, New: newpath, Err: err}
+	}
+
+	_, oIsDir := oChild.(*dirNode)
+	_, nIsDir := nChild.(*dirNode)
+
+	if nIsDir {
+		// an existing directory is never replaced : os.Rename tests it before anything else.
+		if vfs.OSType() == avfs.OsWindows {
+			return linkErr(avfs.ErrWinAccessDenied)
+		}
+
+		return linkErr(vfs.err.FileExists)
+	}
+
 	if nChild == oChild {
 		// oldpath and newpath are hard links to the same file.
 		return false, nil
 	}
 
+	// The order of the checks is the order of the kernel : the old entry first, then the new one.
+	if !oParent.checkPermission(avfs.OpenWrite, vfs.User()) {
+		return linkErr(vfs.err.PermDenied)
+	}
+
 	oChild.Lock()
 	oUid, _ := oChild.owner()
-	_, oIsDir := oChild.(*dirNode)
 	oWritable := oChild.checkPermission(avfs.OpenWrite, vfs.User())
 	oChild.Unlock()
 
 	if oParent.stickyDenied(oUid, vfs.User()) {
 		// in a sticky directory only the owner of the entry or of the directory renames an entry.
-		return false, &os.LinkError{Op: op, Old: oldpath, New: newpath, Err: vfs.err.OpNotPermitted}
+		return linkErr(vfs.err.OpNotPermitted)
+	}
+
+	if !nParent.checkPermission(avfs.OpenWrite, vfs.User()) {
+		return linkErr(vfs.err.PermDenied)
 	}
 
 	if nChild != nil {
@@ -1029,30 +1049,16 @@ func (vfs *MemFS) rename(oldpath, newpath string) (again bool, err error) {
 		nChild.Unlock()
 
 		if nParent.stickyDenied(nUid, vfs.User()) {
-			return false, &os.LinkError{Op: op, Old: oldpath, New: newpath, Err: vfs.err.OpNotPermitted}
+			return linkErr(vfs.err.OpNotPermitted)
 		}
-	}
 
-	if nChild != nil {
-		_, nIsDir := nChild.(*dirNode)
-
-		var err error
-
-		switch {
-		case nIsDir:
-			// an existing directory is never replaced (see os.Rename).
-			err = vfs.err.FileExists
-		case oIsDir:
+		if oIsDir {
 			// a directory can't replace a file or a symbolic link.
-			err = vfs.err.NotADirectory
-		}
-
-		if err != nil {
 			if vfs.OSType() == avfs.OsWindows {
-				err = avfs.ErrWinAccessDenied
+				return linkErr(avfs.ErrWinAccessDenied)
 			}
 
-			return false, &os.LinkError{Op: op, Old: oldpath, New: newpath, Err: err}
+			return linkErr(vfs.err.NotADirectory)
 		}
 	}
 
